@@ -175,8 +175,13 @@ def run(plan, prop=None):
         ctx.violate('sada_alpha', mk, 'alpha_not_delta_plus_escaped_mass',
                     tick=t, got=float(cur['alpha']), want=want_alpha)
       if plan['alg'] == 'S_ADA' and delta > 0:
-        rk = np.linalg.matrix_rank(Cg, tol=1e-10 * max(np.trace(Cg), 1e-300)) \
-            if np.any(Cg) else 0
+        # exact upper bound on the rank of the history (a numerical rank would
+        # miss rows 1e6 times smaller than the others, whose mass the sketch
+        # does deflate): number of non-zero rows so far, capped by the rank the
+        # sequence was generated with
+        nz_rows = int(np.sum(np.any(G[:t + 1] != 0, axis=1)))
+        cap = int(plan['seq_rank']) if plan['seq_kind'] == 'lowrank' else n
+        rk = min(nz_rows, cap)
         if rk >= k:
           lossless = False
         if lossless:
